@@ -18,6 +18,7 @@ import (
 	"encoding/binary"
 	"encoding/json"
 	"fmt"
+	"math"
 	"net"
 	"os"
 	"strings"
@@ -44,6 +45,15 @@ func taggedPage(v primitive.ProtocolVersion, id int16, tag string, pageNo int32,
 		Metadata: &message.RowsMetadata{ColumnCount: 1, ContinuousPageNumber: pageNo, LastContinuousPage: last},
 		Data:     message.RowSet{message.Row{[]byte(tag)}},
 	})
+}
+
+// pageNumber: the <continuous_page_no> of the k-th page (k from 1) of request i. Every third request is deep into a long
+// paging session whose 32-bit page counter wraps around: its pages are numbered MaxInt32, MinInt32, MinInt32+1, ...
+func pageNumber(i, k int) int32 {
+	if i%3 == 2 {
+		return int32(int64(math.MaxInt32) + int64(k) - 1) // wraps
+	}
+	return int32(k)
 }
 
 func tagOf(f *frame.Frame) string {
@@ -113,7 +123,7 @@ func c10RunShim(k int, pagesPer []int, plan []c10Step, maxPending int) string {
 		if pagesPer[i] == 1 {
 			f = taggedFinal(v, ids[i], tag)
 		} else {
-			f = taggedPage(v, ids[i], tag, int32(sent[i]), sent[i] == pagesPer[i])
+			f = taggedPage(v, ids[i], tag, pageNumber(i, sent[i]), sent[i] == pagesPer[i])
 		}
 		if err := h.Deliver(f); err != nil {
 			return fmt.Sprintf("step %d: response %s for in-flight stream id %d rejected: %v", si, tag, ids[i], err)
@@ -367,7 +377,7 @@ func c10Session(args []string, _ []byte) string {
 				} else if spec.PagesPer[o] == 1 {
 					f = taggedFinal(v, streamOf[o], tag)
 				} else {
-					f = taggedPage(v, streamOf[o], tag, int32(sent[o]), sent[o] == spec.PagesPer[o])
+					f = taggedPage(v, streamOf[o], tag, pageNumber(o, sent[o]), sent[o] == spec.PagesPer[o])
 				}
 			}
 			enc, err := ref.EncodeFrame(f)
